@@ -121,6 +121,8 @@ class EditHooks(Hooks):
             it.probe('query_repeated_after_edit')
             if tag.get('foreign_unit'):
                 it.probe('foreign_unit_query_repeated_after_edit')
+            if tag.get('after_value_assignment'):
+                it.probe('query_repeated_after_value_assignment')
         if tag.get('one_option_flipped'):
             it.probe('bin_one_option_flipped')
             it.fault('dup')
@@ -419,7 +421,7 @@ class SpectrumEditScenario(Scenario):
     must_hit = ['refused:resample', 'refused:append', 'crop:at-sample', 'crop:between', 'pad:inside', 'pad:outside',
                 'bin:trapz/symmetric/pp', 'bin:trapz/inside/raw', 'bin:simps/symmetric/raw', 'bin:simps/inside/pp',
                 'bin_linear_exact', 'bin_power', 'nonuniform_grid', 'idem', 'query_repeated_after_edit', 'shared_buffers',
-                'query_repeated_after_caller_write', 'foreign_unit_query_repeated_after_edit', 'bin_one_option_flipped', 'crop:disjoint']
+                'query_repeated_after_caller_write', 'foreign_unit_query_repeated_after_edit', 'bin_one_option_flipped', 'crop:disjoint', 'query_repeated_after_value_assignment']
     probe_names = must_hit + ['coldwarm_audit', 'refused:to', 'refused:pad', 'refused:trim', 'refused:crop']
 
     def make_fns(self):
@@ -513,8 +515,15 @@ class SpectrumEditScenario(Scenario):
                 # a window that misses the grid altogether (requesting a second, disjoint band from what an earlier crop left): nothing
                 # inside the closed range.  The last thing done to this spectrum (its model goes empty, so it is left alone afterwards)
                 span = w[-1] - w[0]
-                lo, hi = (w[-1] + 0.25 * span, w[-1] + 0.75 * span) if rng.random() < 0.5 else (max(w[0] * 0.25, w[0] - 0.75 * span), max(w[0] * 0.5, w[0] - 0.25 * span))
-                if hi < w[0] or lo > w[-1]:
+                r_ = rng.random()
+                if r_ < 0.35:
+                    lo, hi = w[-1] + 0.25 * span, w[-1] + 0.75 * span
+                elif r_ < 0.7:
+                    lo, hi = max(w[0] * 0.25, w[0] - 0.75 * span), max(w[0] * 0.5, w[0] - 0.25 * span)
+                else:
+                    g_ = rng.randint(0, len(w) - 2)         # strictly between two neighbouring samples: inside the range, holding none
+                    lo, hi = w[g_] + 0.3 * (w[g_ + 1] - w[g_]), w[g_] + 0.7 * (w[g_ + 1] - w[g_])
+                if hi < w[0] or lo > w[-1] or not any(lo <= x <= hi for x in w):
                     how = 'disjoint'
                 else:
                     lo, hi = w[i], w[j]
@@ -753,6 +762,20 @@ class SpectrumEditScenario(Scenario):
             m = models[sid]
             if len(m.wave) < 3:
                 continue
+            if rng.random() < 0.06 and asked[sid]:
+                # the owner assigns new values on the same grid through the documented attribute, then an earlier question is asked again
+                sv_ = rng.randrange(10 ** 6)
+                events.append({'c': 0, 'fn': 'h.assign_values', 'a': ['@' + sid, sv_], 'id': 'c0_sv%d' % len(events), 'inplace': ['@' + sid]})
+                m.value = [round(rng.uniform(0.0, 1.0), 3) for _ in m.wave]      # (the generator's own copy only aims later edits)
+                m.lin = None
+                q = copy.deepcopy(rng.choice(asked[sid]))
+                counter[0] += 1
+                q['id'] = 'c%d_rq%d' % (q['c'], counter[0])
+                q.setdefault('t', {})['reasked'] = True
+                q['t']['after_value_assignment'] = True
+                q['t'].pop('linear', None)
+                q['t']['nonneg'] = True
+                events.append(q)
             if rng.random() < 0.08:
                 # the owner edits samples in place through the array the spectrum hands out (s.value[...] *= k): the next edit or query
                 # sees the new content (expected results are computed from the object's live public pre-state)
